@@ -31,7 +31,7 @@ type C13Scenario struct {
 
 var c13Kinds = []string{
 	bhCorrect, bhCorrect, bhCorrect, bhOtherHeader, bhWrongChain, bhBadValidate, bhGarbage, bhUnknownCode, bhInvalidCode,
-	bhNotFound, bhEmpty, bhTruncated, bhOversized, bhSeveral, bhHang, bhReset, bhRawGarbage, bhNilBodyOK, bhForged, bhCaseChain,
+	bhNotFound, bhEmpty, bhTruncated, bhOversized, bhSeveral, bhHang, bhReset, bhRawGarbage, bhNilBodyOK, bhForged, bhCaseChain, bhNoChain, bhChainPrefix,
 }
 
 var c13Delays = []int{0, 1, 50, 500, 1900, 1999, 2001, 2100, 5000}
@@ -210,6 +210,7 @@ func FuzzC13Frames(f *testing.F) {
 	f.Add(enc(p2p_pb.StatusCode_OK, chain.At(6)), false)
 	f.Add(enc(p2p_pb.StatusCode_NOT_FOUND, nil), true)
 	f.Add(enc(p2p_pb.StatusCode_OK, vh.Variant(chain.At(5), vh.AdvWrongChain, 1)), false)
+	f.Add(enc(p2p_pb.StatusCode_OK, vh.Variant(chain.At(5), vh.AdvNoChain, 1)), false)
 	f.Add(enc(p2p_pb.StatusCode_OK, vh.Variant(chain.At(5), vh.AdvBadValidate, 1)), true)
 	f.Add(enc(p2p_pb.StatusCode(9), chain.At(5)), true)
 	f.Add([]byte{}, true)
